@@ -3,3 +3,4 @@ import CvDriver.C18
 import CvDriver.C15
 import CvDriver.C11
 import CvDriver.Mod
+import CvDriver.C20
